@@ -74,9 +74,29 @@ def main():
     rec['ran'].append('baseline pytest command inside the worktree, compared with BASELINE.json stable_pass')
     confirmed = rc_with != 0 and rc_without == 0 and not missing
     rec['confirmed'] = confirmed
-    # 3. checks on /repo with the patch applied
-    rc, o = sh(f'git -C /repo apply {os.path.join(out, "patch.diff")}')
-    if rc != 0:
+    # 3. checks on /repo with the patch applied (or, with --scratch, on a scratch copy of the package: used while
+    #    another run needs /repo unchanged)
+    if '--scratch' in sys.argv:
+        D = tempfile.mkdtemp(prefix='seeded.')
+        shutil.copytree('/repo/gym_gridverse', os.path.join(D, 'gym_gridverse'))
+        rc, o = sh(f'patch -s -p1 < {os.path.join(out, "patch.diff")}', cwd=D)
+        if rc != 0:
+            rec['apply_error'] = o[-500:]
+        else:
+            rc, o = sh(f'PYVC_REPO={D} PYVC_EVIDENCE_DIR={D}/evidence ./check {" ".join(props) if len(props) == 1 else "all"} 2>&1',
+                       cwd=VERIF, timeout=7200)
+            lines = [l for l in o.splitlines() if l.startswith(('VIOLATION', 'UNDECIDED', 'CHECKER', 'KNOWN')) or 'discharged' in l]
+            rec['check_exit'] = rc
+            rec['check_lines'] = lines[:40]
+            rec['detected'] = any(l.startswith('VIOLATION') for l in lines)
+            rec['ran'].append(f'scratch copy of /repo/gym_gridverse + patch.diff; PYVC_REPO=<copy> ./check {props}')
+        shutil.rmtree(D, ignore_errors=True)
+        rc = 1
+    else:
+        rc, o = sh(f'git -C /repo apply {os.path.join(out, "patch.diff")}')
+    if '--scratch' in sys.argv:
+        pass
+    elif rc != 0:
         rec['apply_error'] = o[-500:]
     else:
         try:
